@@ -924,7 +924,10 @@ class MeiParser(object):
             parts_per_measure = int(ppq * 4 * last_ts.beats / last_ts.beat_type)
             # find divs elapsed since last barline
             last_barline = list(part.iter_all(cls=pt.score.Measure))[-1]
-            duration = position - last_barline.start.t
+            # what is left of the measure
+            duration = max(
+                0, parts_per_measure - (position - last_barline.start.t)
+            )
 
         return position + duration
 
